@@ -50,11 +50,49 @@ def expected (rows : Rows) (argv : List String) : Option String :=
     match selectSites rows L ss with
     | .ok r => some (ok r)
     | _ => some bad
-  | ["subseq", "-s", st, "-l", ln] => do
-    let st ← parseInt? st; let ln ← parseInt? ln
-    match subAlign rows L st ln with
-    | .ok r => some (ok r)
-    | _ => some bad
+  | "subseq" :: fl => do
+    -- cmd/subseq.go: window `-s` / `-l` (defaults 0 / 10), on the reference sequence with `--ref-seq`; `-r` keeps what
+    -- lies outside the window (the pieces are concatenated); `--step k` writes one alignment per window start,
+    -- start + k, … while the window fits
+    let st ← parseInt? ((opt fl "-s").getD "0")
+    let ln ← parseInt? ((opt fl "-l").getD "10")
+    let stepv ← parseInt? ((opt fl "--step").getD "0")
+    let rev := flag fl "-r" || flag fl "--reverse"
+    let ref := opt fl "--ref-seq"
+    if ref.isSome && stepv > 0 then some bad else
+    let conv : Option (Int × Int) := match ref with
+      | some name => (match refCoordinates rows name st ln with
+          | .ok (a, l, false) => some (a, l)
+          | _ => none)
+      | none => some (st, ln)
+    match conv with
+    | none => some bad
+    | some (start0, len) =>
+      let one (start : Int) : Option Rows :=
+        let ws : Option (List (Int × Int)) :=
+          if rev then (match inverseCoordinates L start len with
+            | .ok (ss, ls) => some (ss.zip ls)
+            | _ => none)
+          else some [(start, len)]
+        match ws with
+        | none => none
+        | some [] => none
+        | some (w :: rest) =>
+          let sub (x : Int × Int) : Option Rows := match subAlign rows L x.1 x.2 with | .ok r => some r | _ => none
+          rest.foldl (fun acc x => match acc, sub x with
+            | some a, some b => some (a.zipWith (fun p q => (p.1, p.2 ++ q.2)) b)
+            | _, _ => none) (sub w)
+      let rec go (fuel : Nat) (start : Int) (acc : String) : Option String :=
+        match fuel with
+        | 0 => none
+        | fuel + 1 =>
+          match one start with
+          | none => some bad
+          | some r =>
+            let acc := acc ++ fasta r
+            let start := start + stepv
+            if stepv == 0 || start + len > L then some ("rc=0 out=" ++ acc) else go fuel start acc
+      go (L.toNat + 3) start0 ""
   | "consensus" :: fl =>
     if L < 0 then none else
     let ig := flag fl "--ignore-gaps"; let iN := flag fl "--ignore-n"
@@ -71,19 +109,40 @@ def expected (rows : Rows) (argv : List String) : Option String :=
       let r := removeCharacterSites (cutoffTest num den) rows L 1 cs ends (flag fl "--ignore-case")
         (flag fl "--ignore-gaps") (flag fl "--ignore-n") (flag fl "--reverse")
       some (ok r.rows)
-  | "mask" :: "-s" :: st :: "-l" :: ln :: fl => do
-    -- cmd/mask.go without --ref-seq / --unique / --pos: Mask("", start, length, replace, nogap, false)
-    let st ← parseInt? st; let ln ← parseInt? ln
+  | "mask" :: fl => do
+    -- cmd/mask.go: `--unique` first, then `--pos` (each position a window of one site), else `-s` / `-l` (defaults
+    -- 0 / 10); with `--ref-seq` every window is given on the ungapped reference and converted first
+    let hasRef := (opt fl "--ref-seq").isSome
+    let refseq := (opt fl "--ref-seq").getD ""
     let mr := MaskOps.decRep ((opt fl "--replace").getD "AMBIG")
-    match mask rows L 1 "" st ln mr (flag fl "--no-gaps") false with
-    | some r => some (ok r)
-    | none => some bad
-  | "mask" :: "--unique" :: fl => do
-    let mo ← parseInt? ((opt fl "--at-most").getD "1")
-    let mr := MaskOps.decRep ((opt fl "--replace").getD "AMBIG")
-    match maskOccurences rows L 1 "" mo mr with
-    | some r => some (ok r)
-    | none => some bad
+    if flag fl "--unique" then
+      let mo ← parseInt? ((opt fl "--at-most").getD "1")
+      match maskOccurences rows L 1 refseq mo mr with
+      | some r => some (ok r)
+      | none => some bad
+    else
+      let windows : List (Int × Int) ← match opt fl "--pos" with
+        | some p => (p.splitOn ",").mapM fun x => (parseInt? x).map fun v => (v, (1 : Int))
+        | none => do
+          let st ← parseInt? ((opt fl "-s").getD "0")
+          let ln ← parseInt? ((opt fl "-l").getD "10")
+          pure [(st, ln)]
+      let step (acc : Option Rows) (w : Int × Int) : Option Rows :=
+        match acc with
+        | none => none
+        | some cur =>
+          let conv : Option (Int × Int) :=
+            if hasRef then
+              match refCoordinates cur refseq w.1 w.2 with
+              | .ok (a, l, false) => some (a, l)
+              | _ => none
+            else some w
+          match conv with
+          | none => none
+          | some (a, l) => mask cur L 1 refseq a l mr (flag fl "--no-gaps") (flag fl "--no-ref")
+      match windows.foldl step (some rows) with
+      | some r => some (ok r)
+      | none => some bad
   | "dedup" :: fl =>
     let b0 := (addAllStop (newAlign 1) rows).1
     let r := deduplicate (flag fl "--n-as-gap") b0
